@@ -2,14 +2,14 @@ SPECIFICATION Spec
 CONSTANTS
   PlainNames <- MC_Names2
   HostileNames <- MC_HostileL
-  MaxOps = 3
+  MaxOps = 2
   MaxIno = 10
   Cfg <- MC_Cfg_plain
-  AsFound <- MC_AF_none
+  AsFound <- MC_AF_c06
   Mode = "c06"
   InitS <- MC_S_links
   ScenCfg <- MC_Scen_plain
   ScenTree <- MC_Tree_links
 VIEW View
-INVARIANTS TreeOK HandlesOK ContainedOK OutsideFrozen NameGateOK MirrorOK Report
+INVARIANTS TreeOK ContainedOK
 CHECK_DEADLOCK FALSE
